@@ -12,7 +12,7 @@ import vlib
 
 LEVEL = "model_checking"
 R1 = """SPECIFICATION Spec
-CONSTANTS MaxInv = %d MaxPoints = %d MaxAttempts = %d MaxOther = %d LenientMatch = %s NotifyEarly = %s NoInitialFlush = %s InitialNotifyOnly = %s
+CONSTANTS MaxInv = %d MaxPoints = %d MaxAttempts = %d MaxOther = %d LenientMatch = %s NotifyEarly = %s NoInitialFlush = %s InitialNotifyOnly = %s StartRace = %s NoopNotifies = %s
 INVARIANTS MonitorQuiet NoStall ChanBound
 CHECK_DEADLOCK FALSE
 """
@@ -26,11 +26,13 @@ CHECK_DEADLOCK FALSE
 def run(ctx):
     quick = ctx.tier == "quick"
     b = (3, 3, 2, 1) if quick else (4, 4, 3, 2)
-    ctx.tlc_check("LambdaExtension", ctx.write_cfg("LambdaExtension.r1.cfg", R1 % (b + ("FALSE", "FALSE", "FALSE", "FALSE"))), label="extension as coded", timeout=3000)
-    for name, flags, want in (("look-alike record types flush", ("TRUE", "FALSE", "FALSE", "FALSE"), "MonitorQuiet"),
-                              ("notify after the first answer", ("FALSE", "TRUE", "FALSE", "FALSE"), "MonitorQuiet"),
-                              ("no initial flush", ("FALSE", "FALSE", "TRUE", "FALSE"), "NoStall"),
-                              ("initial notification without a flush", ("FALSE", "FALSE", "FALSE", "TRUE"), "MonitorQuiet")):
+    ctx.tlc_check("LambdaExtension", ctx.write_cfg("LambdaExtension.r1.cfg", R1 % (b + ("FALSE", "FALSE", "FALSE", "FALSE", "TRUE", "TRUE"))), label="extension as coded", timeout=3000)
+    for name, flags, want in (("look-alike record types flush", ("TRUE", "FALSE", "FALSE", "FALSE", "TRUE", "TRUE"), "MonitorQuiet"),
+                              ("notify after the first answer", ("FALSE", "TRUE", "FALSE", "FALSE", "TRUE", "TRUE"), "MonitorQuiet"),
+                              ("no initial flush", ("FALSE", "FALSE", "TRUE", "FALSE", "TRUE", "TRUE"), "NoStall"),
+                              ("initial notification without a flush", ("FALSE", "FALSE", "FALSE", "TRUE", "FALSE", "TRUE"), "MonitorQuiet"),
+                              # finding 18, the code as found: a flush of the coordinator's placeholder target is silent
+                              ("a flush before the forwarder has registered is not answered", ("FALSE", "FALSE", "FALSE", "FALSE", "TRUE", "FALSE"), "NoStall")):
         bad = ctx.tlc_check("LambdaExtension", ctx.write_cfg("LambdaExtension.dev.cfg", R1 % ((3, 3, 2, 1) + flags)), label=name + " (must fail)", must_pass=False)
         if bad.violated != want:
             raise vlib.MachineryError("vacuity: deviation '%s' not refuted (%s)" % (name, bad.violated))
